@@ -1,0 +1,116 @@
+//! Wrapper around the session's `EgressBuffer` and `EgressDriver` (crate-private) so that an
+//! external harness can run op sequences on the real code. The writer is scripted: every
+//! `poll_write_vectored` accepts the next scripted byte count (clipped to what was offered) and
+//! records the bytes; when the script is exhausted it returns `Pending` (which is where a
+//! `select!` would drop the driver).
+use crate::sessionx::egress_buffer::EgressBuffer;
+use crate::sessionx::egress_driver::EgressDriver;
+use crate::transport::ZmtpWriteHalf;
+use bytes::Bytes;
+use std::collections::VecDeque;
+use std::future::Future;
+use std::io::IoSlice;
+use std::pin::Pin;
+use std::task::{Context, Poll};
+use tokio::io::AsyncWrite;
+
+#[derive(Debug, Default)]
+pub struct VScriptedWriter {
+  script: VecDeque<usize>,
+  /// one entry per successful write call: the bytes that were accepted
+  pub writes: Vec<Vec<u8>>,
+  /// number of slices offered in each write call
+  pub offered_slices: Vec<usize>,
+  pub flushes: usize,
+}
+
+impl AsyncWrite for VScriptedWriter {
+  fn poll_write(mut self: Pin<&mut Self>, cx: &mut Context<'_>, buf: &[u8]) -> Poll<std::io::Result<usize>> {
+    let s = [IoSlice::new(buf)];
+    self.as_mut().poll_write_vectored(cx, &s)
+  }
+  fn poll_write_vectored(mut self: Pin<&mut Self>, _cx: &mut Context<'_>, bufs: &[IoSlice<'_>]) -> Poll<std::io::Result<usize>> {
+    let n = match self.script.pop_front() {
+      Some(n) => n,
+      None => return Poll::Pending,
+    };
+    let mut left = n;
+    let mut got = Vec::new();
+    for b in bufs {
+      if left == 0 {
+        break;
+      }
+      let k = left.min(b.len());
+      got.extend_from_slice(&b[..k]);
+      left -= k;
+    }
+    self.offered_slices.push(bufs.len());
+    let k = got.len();
+    self.writes.push(got);
+    Poll::Ready(Ok(k))
+  }
+  fn is_write_vectored(&self) -> bool {
+    true
+  }
+  fn poll_flush(mut self: Pin<&mut Self>, _cx: &mut Context<'_>) -> Poll<std::io::Result<()>> {
+    self.flushes += 1;
+    Poll::Ready(Ok(()))
+  }
+  fn poll_shutdown(self: Pin<&mut Self>, _cx: &mut Context<'_>) -> Poll<std::io::Result<()>> {
+    Poll::Ready(Ok(()))
+  }
+}
+impl ZmtpWriteHalf for VScriptedWriter {}
+
+pub struct VEgress {
+  buf: EgressBuffer,
+}
+
+/// outcome of one `drive`: 0 = Pending (script exhausted), 1 = Ready(Ok), 2 = Ready(Err)
+pub struct VDriveResult {
+  pub outcome: u8,
+  pub writes: Vec<Vec<u8>>,
+  pub offered_slices: Vec<usize>,
+}
+
+impl VEgress {
+  pub fn new() -> Self {
+    Self { buf: EgressBuffer::new() }
+  }
+  pub fn push(&mut self, data: Vec<u8>, msg_count: usize) {
+    self.buf.push(Bytes::from(data), msg_count)
+  }
+  pub fn push_priority(&mut self, data: Vec<u8>) {
+    self.buf.push_priority(Bytes::from(data))
+  }
+  pub fn advance(&mut self, n: usize) -> usize {
+    self.buf.advance(n)
+  }
+  pub fn pending_messages(&self) -> usize {
+    self.buf.pending_messages()
+  }
+  pub fn total_pending_bytes(&self) -> usize {
+    self.buf.total_pending_bytes()
+  }
+  pub fn is_empty(&self) -> bool {
+    self.buf.is_empty()
+  }
+  pub fn current_slice(&self) -> Option<Vec<u8>> {
+    self.buf.current_slice().map(|s| s.to_vec())
+  }
+  /// Poll one fresh `EgressDriver` (as the session's write arm does) against a scripted writer.
+  pub fn drive(&mut self, script: Vec<usize>, max_iovecs: usize) -> VDriveResult {
+    let mut w = VScriptedWriter { script: script.into(), ..Default::default() };
+    let waker = futures::task::noop_waker();
+    let mut cx = Context::from_waker(&waker);
+    let outcome = {
+      let mut d = EgressDriver::new(&mut w, &mut self.buf, max_iovecs, 0);
+      match Pin::new(&mut d).poll(&mut cx) {
+        Poll::Pending => 0,
+        Poll::Ready(Ok(())) => 1,
+        Poll::Ready(Err(_)) => 2,
+      }
+    };
+    VDriveResult { outcome, writes: w.writes, offered_slices: w.offered_slices }
+  }
+}
